@@ -635,6 +635,25 @@ class Engine:
     if isinstance(obj, dict) and not is_sym(idx):
       obj[idx] = v
       return
+    if isinstance(obj, SymSeq):
+      n = to_z3(obj.length)
+      old = obj.get
+      if isinstance(idx, slice):
+        if idx.step is not None:
+          raise Unsupported('stepped slice assignment')
+        lo = self._norm_slice_bound(idx.start, n) if idx.start is not None else 0
+        hi = self._norm_slice_bound(idx.stop, n) if idx.stop is not None else n
+        lo_, hi_ = to_z3(lo), to_z3(hi)
+        val = (lambda i: v.get(to_z3(i) - lo_)) if isinstance(v, SymSeq) else (lambda i: _num_like(v))
+        obj.get = lambda i: z3.If(z3.And(to_z3(i) >= lo_, to_z3(i) < hi_), val(i), old(i))
+        return
+      k = to_z3(idx)
+      if self.truth(k < 0):
+        k = k + n
+      if not self.truth(z3.And(k >= 0, k < n)):
+        raise PathRaise('IndexError', getattr(node, 'lineno', None))
+      obj.get = lambda i: z3.If(to_z3(i) == k, _num_like(v), old(i))
+      return
     if isinstance(obj, dict) and is_sym(idx):
       for k in list(obj):
         if self.truth(self.compare(ast.Eq(), idx, k)):
@@ -709,6 +728,16 @@ class Engine:
           self.exec_block(h.body, env)
           return
       raise
+
+  def st_With(self, s, env):
+    for item in s.items:
+      name = _dotted(item.context_expr)
+      if name not in ('np.errstate', 'numpy.errstate', 'jax.named_scope', 'contextlib.nullcontext'):
+        raise Unsupported(f'with {name}')
+      self.trusted.add(f'context manager {name} treated as transparent')
+      if item.optional_vars is not None:
+        raise Unsupported('with ... as ...')
+    self.exec_block(s.body, env)
 
   def st_For(self, s, env):
     it = self.eval(s.iter, env)
@@ -963,6 +992,25 @@ class Engine:
         if self.truth(i == j):
           return obj[j]
       raise PathAbort()
+    if isinstance(obj, SymSeq):
+      n = to_z3(obj.length)
+      old = obj.get
+      if isinstance(idx, slice):
+        if idx.step is not None:
+          raise Unsupported('stepped slice assignment')
+        lo = self._norm_slice_bound(idx.start, n) if idx.start is not None else 0
+        hi = self._norm_slice_bound(idx.stop, n) if idx.stop is not None else n
+        lo_, hi_ = to_z3(lo), to_z3(hi)
+        val = (lambda i: v.get(to_z3(i) - lo_)) if isinstance(v, SymSeq) else (lambda i: _num_like(v))
+        obj.get = lambda i: z3.If(z3.And(to_z3(i) >= lo_, to_z3(i) < hi_), val(i), old(i))
+        return
+      k = to_z3(idx)
+      if self.truth(k < 0):
+        k = k + n
+      if not self.truth(z3.And(k >= 0, k < n)):
+        raise PathRaise('IndexError', getattr(node, 'lineno', None))
+      obj.get = lambda i: z3.If(to_z3(i) == k, _num_like(v), old(i))
+      return
     if isinstance(obj, dict) and is_sym(idx):
       for k in obj:
         if self.truth(idx == to_z3(k)):
@@ -1313,6 +1361,11 @@ class _BoundSym:
 
   def __call__(self, eng, *a, **k):
     return self.fn(eng, *a, **k)
+
+
+def _num_like(v):
+  v = to_z3(v) if not isinstance(v, bool) else z3.IntVal(int(v))
+  return z3.ToReal(v) if z3.is_int(v) else v
 
 
 def _floordiv(a, b):
